@@ -89,7 +89,7 @@ var hookAnn = map[string][3]string{ // events, weight, delete policies
 	"mixed": {"pre-install,bogus-event", "", "hook-succeeded"},
 }
 
-func progText(g string, h Host) string {
+func progText(g string, h Host, rank int) string {
 	switch g {
 	case "LIT":
 		return "lit"
@@ -112,6 +112,16 @@ func progText(g string, h Host) string {
 			`{{ range $p, $_ := .Files.Glob "%s/*" }}{{ $p }}{{ end }}{{ range $p, $_ := .Files.Glob "../*" }}{{ $p }}{{ end }}]`, h.CanaryTxt(), h.CanaryDir)
 	case "DNS":
 		return `[{{ getHostByName "localhost" }}]`
+	case "SET": // records a value in the values map that all files of the chart share
+		return fmt.Sprintf(`{{ $_ := set .Values "state" "s%d" }}set`, rank)
+	case "GET":
+		return `{{ .Values.state | default "unset" }}`
+	case "GETS": // parent files only: the subchart's values are the table .Values.s1 of the parent
+		return `{{ .Values.s1.state | default "unset" }}`
+	case "MUT": // mutates the elements of a list that comes from the chart's default values
+		return `{{ range .Values.ports }}{{ $_ := set . "name" (printf "%s-%s" $.Release.Name .name) }}{{ end }}{{ (index .Values.ports 0).name }}`
+	case "FAIL":
+		return fmt.Sprintf(`{{ fail "boom-%d" }}`, rank)
 	case "ENV":
 		return `{{ env "VERIF_CANARY" }}`
 	case "EXPANDENV":
@@ -154,7 +164,7 @@ func DocText(rank, idx int, d Doc, h Host) string {
 	} else if d.K == "Secret" {
 		key = "stringData"
 	}
-	fmt.Fprintf(&sb, "%s:\n  v: \"%s\"", key, progText(d.G, h))
+	fmt.Fprintf(&sb, "%s:\n  v: \"%s\"", key, progText(d.G, h, rank))
 	return sb.String()
 }
 
@@ -233,7 +243,7 @@ func ChartFiles(c Case, f Fmt, h Host) []*loader.BufferedFile {
 			}
 		}
 		add(pre+"Chart.yaml", meta)
-		add(pre+"values.yaml", fmt.Sprintf("x: v-%s\nt: 'T[{{ include \"shared\" . }}]'\nt2: 'U[{{ tpl .Values.t . }}]'\n", ch))
+		add(pre+"values.yaml", fmt.Sprintf("x: v-%s\nt: 'T[{{ include \"shared\" . }}]'\nt2: 'U[{{ tpl .Values.t . }}]'\nports:\n- name: http\n", ch))
 		add(pre+"files/a.txt", "F-"+ch)
 		add(pre+"files/b.txt", "G-"+ch)
 		if c.Schema != "" && c.Schema != "none" && c.SchemaAt == ch {
